@@ -875,3 +875,28 @@ Proof.
     apply mem_In in M. apply notified_lemma in M. tauto.
 Qed.
 End Meaning.
+
+(* ------------------------------------------------------------------ statements in the shape Properties/C19.v uses *)
+Lemma multi_adaptation_lemma (ul : list spec -> spec -> name -> option value)
+      (fcall : value -> list nat -> option nat) c os p n :
+  (forall req p' n' v, aget cache_key_eqb (c_cache c) (p', n', ckey_of req) = Some v -> v = ul req p' n') ->
+  snd (queryMultiAdapter ul fcall c os p (NStr n)) =
+  match ul (map o_provides os) p n with
+  | Some f => match fcall f (map unwrap os) with Some r => RVal r | None => RDefault end
+  | None => RDefault
+  end /\
+  forall o ob, o_super_of o = Some ob -> unwrap o = ob.
+Proof. intros. split; [apply queryMultiAdapter_lemma; assumption|exact unwrap_super]. Qed.
+
+Lemma flat_semantics_thm E d c i : env_ok E = true ->
+  (In i (flat E d c) <->
+   i = iroot \/ exists c' q, Contributes E d c c' /\ In q (declared d c') /\ Reach (bases (e_ig E)) q i).
+Proof. intros OK. apply flat_semantics_lemma. exact OK. Qed.
+
+Lemma notified_thm E st c T : env_ok E = true ->
+  (In T (notified E (st_decl st) (cfuel E) c) <-> Hears E (st_decl st) T c) /\
+  (Hears E (st_decl st) T c -> nget (st_cache (notify E st c)) T = None) /\
+  (~ Hears E (st_decl st) T c -> nget (st_cache (notify E st c)) T = nget (st_cache st) T).
+Proof.
+  intros OK. split; [apply notified_lemma; exact OK|apply notify_cache_lemma; exact OK].
+Qed.
